@@ -254,6 +254,9 @@ func (p *prop) Generate(rng *core.Rand, tier string, emit func(string)) {
 		go func() {
 			defer wg.Done()
 			for j := range ch {
+				if p.failed.Load() >= enoughFailures {
+					continue
+				}
 				r := j.rng
 				K := 1 + r.Intn(3)
 				if r.Chance(1, 10) {
@@ -275,6 +278,9 @@ func (p *prop) Generate(rng *core.Rand, tier string, emit func(string)) {
 	wg.Wait()
 	mr := rng.Fork()
 	for i, g := range results {
+		if g.line == "" {
+			continue // skipped after enough failures
+		}
 		p.cache.Store(g.line, g.out)
 		emit(g.line)
 		if nBad > 0 && i%(len(results)/nBad+1) == 0 {
@@ -282,7 +288,7 @@ func (p *prop) Generate(rng *core.Rand, tier string, emit func(string)) {
 		}
 	}
 	sr := rng.Fork()
-	for i := 0; i < nStress; i++ {
+	for i := 0; i < nStress && p.failed.Load() < enoughFailures; i++ {
 		emit(fmt.Sprintf("stress %d %d", 2+sr.Intn(47), sr.Intn(9000)))
 	}
 }
